@@ -94,7 +94,11 @@ def checkLog : List Byte → List Iter → Option String
 
 def probeOffsets : List Out → List Nat
   | [] => []
-  | .probe _ _ o _ :: rest => o :: probeOffsets rest
+  | .probe _ fields o _ :: rest =>
+    -- a probe whose marker starts with `I` runs with standard input redirected (the generator's
+    -- convention): its offset is an offset into the here-document or file, not into the script
+    if (fields.head?.map (·.startsWith "I")).getD false then probeOffsets rest
+    else o :: probeOffsets rest
   | _ :: rest => probeOffsets rest
 
 /-- split a script into the chunks of the given sizes (cyclic) -/
